@@ -4,24 +4,24 @@ namespace Emboss.Types
 theorem orCrash_none {a b : Option Crash} : orCrash a b = none ↔ a = none ∧ b = none := by
   cases a <;> simp [orCrash]
 
-theorem tcList_length (es : List Expr) : (tcList es).tys.length = es.length := by
+theorem tcList_length (file : FileId) (es : List Expr) : (tcList file es).tys.length = es.length := by
   induction es with
   | nil => simp [tcList]
   | cons e es ih => simp [tcList, ih]
 
 /-- per-argument integer checks pass iff every argument type is `int`. -/
-theorem fnArgErrs_int (f : Fn) (hf : f ≠ .present) :
+theorem fnArgErrs_int (file : FileId) (f : Fn) (hf : f ≠ .present) :
     ∀ (i : Nat) (args : List Expr) (tys : List Ty), tys.length = args.length →
-      (fnArgErrs f i args tys = [] ↔ ∀ t ∈ tys, t = .int)
+      (fnArgErrs file f i args tys = [] ↔ ∀ t ∈ tys, t = .int)
   | _, [], [], _ => by simp [fnArgErrs]
   | _, [], _ :: _, h => by simp at h
   | _, _ :: _, [], h => by simp at h
   | i, a :: as, t :: ts, h => by
-    have ih := fnArgErrs_int f hf (i + 1) as ts (by simpa using h)
+    have ih := fnArgErrs_int file f hf (i + 1) as ts (by simpa using h)
     cases f <;> simp_all [fnArgErrs, argErr]
 
-theorem fnArgErrs_present (i : Nat) (a : Expr) (t : Ty) :
-    fnArgErrs .present i [a] [t] = [] ↔ a.isFieldRef = true := by
+theorem fnArgErrs_present (file : FileId) (i : Nat) (a : Expr) (t : Ty) :
+    fnArgErrs file .present i [a] [t] = [] ↔ a.isFieldRef = true := by
   simp [fnArgErrs]
 
 /-- pointwise typing of an argument list. -/
